@@ -502,6 +502,175 @@ where
     run.describe(|| desc.clone());
 }
 
+/// Range decoders rebuilt from (possibly corrupted) side information: a state that the
+/// validating constructor `RangeCoderState::new` accepts plus a point inside it, or a seek to
+/// such a state. Whatever is accepted must then decode totally.
+fn range_forged_state_row<M: ModelSet, S: Num>(run: &mut Run, rng: &mut Rng)
+where
+    S: AsPrimitive<M::W> + From<M::W>,
+{
+    use constriction::stream::queue::RangeCoderState;
+    use constriction::Seek;
+    let w = <M::W as Num>::NBITS;
+    let s = S::NBITS;
+    run.h(7 << 60 | w as u64 * 1000 + s as u64);
+    run.count(row_name(w, s), 1);
+    run.count("range_forged_state_cases", 1);
+    let zoo: Vec<M> = gen_zoo(rng, 3, 40);
+    let (data, kind) = gen_garbage::<M::W>(rng, None, 12);
+    let mut gen_state = |rng: &mut Rng| -> (S, S, S) {
+        let range = match rng.below(8) {
+            0 => 1u128,
+            1 => rng.below128(1 << 16) + 1,
+            2 => crate::num::pow2(s - w) - 1,
+            3 => crate::num::pow2(s - w),
+            4 => crate::num::pow2(s - w) + rng.below128(4),
+            5 => crate::num::mask(s),
+            _ => rng.edgy(s) & crate::num::mask(s),
+        };
+        let lower = rng.edgy(s) & crate::num::mask(s);
+        let off = if range == 0 { 0 } else { rng.below128(range) };
+        (S::of(lower), S::of(range), S::of(lower.wrapping_add(off) & crate::num::mask(s)))
+    };
+    let (lower, range, point) = gen_state(rng);
+    run.h128(lower.as_u());
+    run.h128(range.as_u());
+    let desc = format!("RANGE W={w} S={s} decoder from raw parts lower={:#x} range={:#x} point={:#x} over [{kind}] {}", lower.as_u(), range.as_u(), point.as_u(), words_desc(&data));
+    run.note(|| desc.clone());
+    let Ok(st) = RangeCoderState::<M::W, S>::new(lower, range) else {
+        run.count("range_states_refused", 1);
+        run.nontrivial();
+        return;
+    };
+    let cur = constriction::backends::Cursor::new_at_pos(data.clone(), rng.usize_in(0, data.len())).unwrap();
+    let Ok(mut d) = RangeDecoder::<M::W, S, _>::from_raw_parts(cur, st, point) else {
+        run.count("range_raw_parts_refused", 1);
+        return;
+    };
+    run.count("range_states_accepted", 1);
+    let k = rng.usize_in(1, if run.small { 10 } else { 40 });
+    for i in 0..k {
+        let m = &zoo[rng.below(zoo.len() as u64) as usize];
+        match m.range_decode(&mut d) {
+            Ok(g) => {
+                if g >= m.n() {
+                    run.violation("symbol-outside-model", "C10/range-symbol-outside-support", format!("{desc} :: decode #{i} returned {g} for a {}-symbol model", m.n()));
+                    return;
+                }
+            }
+            Err(CoderError::Frontend(RangeDecErr::InvalidData)) => {
+                run.count("range_invalid_data_errors", 1);
+            }
+            Err(e) => {
+                run.violation("undocumented-error", "C10/range-undocumented-error", format!("{desc} :: decode #{i} returned {e:?}"));
+                return;
+            }
+        }
+        if rng.chance(1, 6) {
+            let (l2, r2, _) = gen_state(rng);
+            if let Ok(st2) = RangeCoderState::<M::W, S>::new(l2, r2) {
+                if d.seek((rng.usize_in(0, data.len() + 1), st2)).is_ok() {
+                    run.count("range_forged_seeks_accepted", 1);
+                }
+            }
+        }
+        let _ = d.maybe_exhausted();
+    }
+    run.count("range_symbols_decoded", k as u64);
+    run.nontrivial();
+    run.describe(|| desc.clone());
+}
+
+/// Lazily quantised categorical models at precisions beyond the float type's mantissa
+/// (f32 with PRECISION up to 32, f64 with PRECISION 32) on the coders with u32 words.
+macro_rules! lib_models_lazy_fn {
+    ($name:ident, $F:ty) => {
+fn $name<const P: usize>(run: &mut Run, rng: &mut Rng) {
+    type F = $F;
+    run.h(8 << 60 | (P as u64) << 8 | F::MANT as u64);
+    run.count("library_model_cases", 1);
+    run.count("lazy_cases_at_high_precision", 1);
+    let v: Vec<F> = gen_float_table(rng, if run.small { 8 } else { 60 });
+    let n = v.len();
+    let (data, kind) = gen_garbage::<u32>(rng, None, 24);
+    for x in &v {
+        let y: f64 = (*x).into();
+        run.h(y.to_bits());
+    }
+    let desc = format!("lazy model <u32,{},{}> [{kind}] {} ; table {}", F::FNAME, P, words_desc(&data), table_desc(&v));
+    run.note(|| desc.clone());
+    let Ok(lazy) = LazyContiguousCategoricalEntropyModel::<u32, F, &[F], P>::from_floating_point_probabilities_fast(&v[..], None) else {
+        run.count("lazy_construction_refused", 1);
+        return;
+    };
+    // Arbitrary words almost never put a quantile within a few hundred units of a symbol
+    // boundary at these precisions, which is where the float shortcuts of the lazy decoder are
+    // at risk. Half of the cases therefore use words that do: with PRECISION == 32 every word
+    // of the data is a chunk / the low half of an ANS state, i.e. a quantile.
+    let mut data = data;
+    if rng.bool() {
+        let bounds: Vec<u32> = (0..n).filter_map(|sy| lazy.left_cumulative_and_probability(sy)).map(|(l, _)| l).collect();
+        if !bounds.is_empty() {
+            for x in data.iter_mut() {
+                let b = bounds[rng.below(bounds.len() as u64) as usize];
+                let d = rng.below(600) as u32;
+                *x = if rng.chance(3, 4) { b.wrapping_sub(d) } else { b.wrapping_add(d) };
+                if P < 32 {
+                    *x &= (1u32 << (P % 32)) - 1;
+                }
+            }
+            run.count("lazy_cases_with_words_near_symbol_boundaries", 1);
+        }
+    }
+    for x in &data {
+        run.h(*x as u64);
+    }
+    let desc = format!("{desc} ; words used {}", words_desc(&data));
+    run.note(|| desc.clone());
+    let k = if run.small { 20 } else { 150 };
+    macro_rules! drive {
+        ($dec:expr, $errok:expr) => {{
+            let mut d = $dec;
+            for i in 0..k {
+                match d.decode_symbol(&lazy) {
+                    Ok(g) => {
+                        if g >= n {
+                            run.violation("symbol-outside-model", "C10/library-model-symbol-outside-support/LazyContiguousCategorical", format!("{desc} :: decode #{i} returned {g}"));
+                            return;
+                        }
+                    }
+                    Err(e) => {
+                        #[allow(clippy::redundant_closure_call)]
+                        if !($errok)(&e) {
+                            run.violation("undocumented-error", "C10/undocumented-error", format!("{desc} :: decode #{i} returned {e:?}"));
+                            return;
+                        }
+                        break;
+                    }
+                }
+            }
+            run.count("library_model_symbols_decoded", k as u64);
+        }};
+    }
+    match rng.below(3) {
+        0 => drive!(AnsCoder::<u32, u64, Vec<u32>>::from_binary(data.clone()).unwrap_infallible(), |_e: &CoderError<core::convert::Infallible, core::convert::Infallible>| false),
+        1 => drive!(RangeDecoder::<u32, u64, _>::from_compressed(data.clone()).unwrap_infallible(), |e: &CoderError<RangeDecErr, core::convert::Infallible>| matches!(e, CoderError::Frontend(RangeDecErr::InvalidData))),
+        _ => {
+            let Ok(cc) = ChainCoder::<u32, u64, Vec<u32>, Vec<u32>, P>::from_binary(data.clone()) else {
+                run.count("chain_construction_refusals", 1);
+                return;
+            };
+            drive!(cc, |e: &CoderError<ChainDecErr, constriction::stream::chain::BackendError<core::convert::Infallible, core::convert::Infallible>>| matches!(e, CoderError::Frontend(ChainDecErr::OutOfCompressedData)))
+        }
+    }
+    run.nontrivial();
+    run.describe(|| desc.clone());
+}
+    };
+}
+lib_models_lazy_fn!(lib_models_lazy_f32, f32);
+lib_models_lazy_fn!(lib_models_lazy_f64, f64);
+
 fn lib_models_default(run: &mut Run, rng: &mut Rng) {
     run.h(5 << 60);
     run.count("library_model_cases", 1);
@@ -573,7 +742,14 @@ fn lib_models_default(run: &mut Run, rng: &mut Rng) {
 pub fn case(run: &mut Run, rng: &mut Rng) {
     match rng.below(10) {
         0 | 1 => range_rows!(run, rng, ans_row),
-        2 | 3 => range_rows!(run, rng, range_row),
+        2 => range_rows!(run, rng, range_row),
+        3 => {
+            if rng.chance(1, 3) {
+                range_rows!(run, rng, range_forged_state_row)
+            } else {
+                range_rows!(run, rng, range_row)
+            }
+        }
         4 | 5 => {
             let combos: &[fn(&mut Run, &mut Rng)] = &[
                 chain_combo::<u8, u16, u8, 8>,
@@ -600,7 +776,16 @@ pub fn case(run: &mut Run, rng: &mut Rng) {
         }
         6 | 7 => lib_models_small(run, rng),
         8 => {
-            let combos: &[fn(&mut Run, &mut Rng)] = &[lib_models_lookup::<u8, 8>, lib_models_lookup::<u16, 16>, lib_models_lookup::<u16, 12>, lib_models_lookup::<u8, 5>];
+            let combos: &[fn(&mut Run, &mut Rng)] = &[
+                lib_models_lookup::<u8, 8>,
+                lib_models_lookup::<u16, 16>,
+                lib_models_lookup::<u16, 12>,
+                lib_models_lookup::<u8, 5>,
+                lib_models_lazy_f32::<32>,
+                lib_models_lazy_f32::<28>,
+                lib_models_lazy_f32::<26>,
+                lib_models_lazy_f64::<32>,
+            ];
             let k = rng.below(combos.len() as u64) as usize;
             combos[k](run, rng)
         }
